@@ -38,7 +38,7 @@
 (* of an edge on a row does not depend on the row the walk began on (lemma *)
 (* PathIndependent of mc/TrapMC.tla), which is what makes separately       *)
 (* rasterised abutting trapezoids tile (mc/TrapTileMC.tla).  The unrepaired *)
-(* pixman tree deviates in three places, each selectable by a field of the *)
+(* pixman tree deviates in four places, each selectable by a field of the *)
 (* quirk record q that the *Q operators take (all FALSE = specification):  *)
 (*   q.stale   pixman_edge_step does not store the new error term when no  *)
 (*             correction of x is needed (finding C12-stale-error-term);   *)
@@ -46,6 +46,10 @@
 (*             fractional slope in the state (x = X, e = -dy) although     *)
 (*             every later state of such an edge is x = ceil(X) - 1        *)
 (*             (finding C12-exact-start);                                  *)
+(*   q.backstep pixman_edge_step with n < 0 "corrects" an edge running     *)
+(*             right with a whole-number slope (x = X - 1 from then on),   *)
+(*             although such an edge accumulates no error                  *)
+(*             (finding C12-whole-slope-backstep);                         *)
 (*   q.wrap    pixman_sample_floor_y wraps instead of saturating below the *)
 (*             first sample row of the lowest pixel row (C12-floor-y-wrap).*)
 (* They exist only as named deviations of the trace specification and as   *)
@@ -167,16 +171,19 @@ MultiInit(stepx, dx, dy, signdx, k) ==
 (* With an * dx = Q * dy + R:                                                                *)
 (*   n >= 0:  ne = e + Q dy + R;  if ne > 0 then x += ceil(ne / dy), e = ne - that * dy      *)
 (*   n <  0:  ne = e - Q dy - R;  if ne <= -dy then x -= floor(-ne / dy), e = ne + that * dy *)
-(* otherwise e = ne (q.stale: e is left as it was).                                          *)
-NoQuirks   == [stale |-> FALSE, exact0 |-> FALSE, wrap |-> FALSE]
-Unrepaired == [stale |-> TRUE, exact0 |-> TRUE, wrap |-> TRUE]
+(* otherwise e = ne (q.stale: e is left as it was).  An edge with dx = 0 (whole-number slope) *)
+(* accumulates nothing: only x moves (q.backstep: the n < 0 rule is applied to it too).      *)
+NoQuirks   == [stale |-> FALSE, exact0 |-> FALSE, backstep |-> FALSE, wrap |-> FALSE]
+Unrepaired == [stale |-> TRUE, exact0 |-> TRUE, backstep |-> TRUE, wrap |-> TRUE]
 EdgeStepQ(ed, n, q) ==
     LET an == Abs(n)
         qr == MulDivMod(an, ed.dx, ed.dy)
         Q  == qr[1]
         R  == qr[2]
         x1 == ed.x + n * ed.stepx
-    IN  IF n >= 0
+    IN  IF ed.dx = 0 /\ ~q.backstep
+        THEN [ed EXCEPT !.x = x1]                       \* whole-number slope: no error accumulates
+        ELSE IF n >= 0
         THEN LET s == R + ed.e IN                       \* -dy <= s < dy, ne = Q dy + s
              IF s > 0 THEN [ed EXCEPT !.x = x1 + (Q + 1) * ed.signdx, !.e = s - ed.dy]
              ELSE IF Q = 0 THEN [ed EXCEPT !.x = x1, !.e = IF q.stale THEN ed.e ELSE s]
